@@ -405,6 +405,6 @@ pub fn c13_case(max_recs: usize) -> BoxedStrategy<Case> {
 
 pub fn run(ctx: &Ctx) {
     ctx.replay_findings(&oracle);
-    ctx.search("projected-templates", ctx.n(80_000, 2_500_000), &|| c13_case(6), &oracle);
-    ctx.search("more-records", ctx.n(4_000, 100_000), &|| c13_case(20), &oracle);
+    ctx.search("projected-templates", ctx.n(300_000, 25_000_000), &|| c13_case(6), &oracle);
+    ctx.search("more-records", ctx.n(12_000, 1_000_000), &|| c13_case(20), &oracle);
 }
